@@ -4,10 +4,13 @@ import (
 	"os"
 	"testing"
 
+	"github.com/rs/zerolog"
+
 	"verifharness/internal/ev"
 )
 
 func TestMain(m *testing.M) {
+	zerolog.SetGlobalLevel(zerolog.Disabled) // the code under test logs every rejected call
 	code := m.Run()
 	ev.Flush()
 	os.Exit(code)
